@@ -47,7 +47,7 @@ def toks_str(ts):
 
 
 class RealEngine:
-    def __init__(self, kind: str, accum_allowed: bool, gdp: bool, sigma: float, clip: float, n_tokens: int, noise_mode="count", acct="auto"):
+    def __init__(self, kind: str, accum_allowed: bool, gdp: bool, sigma: float, clip: float, n_tokens: int, noise_mode="count", acct="auto", via_engine=False):
         from opacus.accountants import GaussianAccountant, RDPAccountant, PRVAccountant
         from opacus.optimizers import DPOptimizer
         from opacus.optimizers.optimizer_fast_gradient_clipping import DPOptimizerFastGradientClipping
@@ -57,25 +57,40 @@ class RealEngine:
         self.events = []
         self.noise_calls = 0
         base = rig.TokenModel(self.d)
-        if kind == "std":
-            from opacus import GradSampleModule
-            self.model = GradSampleModule(base, loss_reduction="sum")
-        else:
-            from opacus.grad_sample.grad_sample_module_fast_gradient_clipping import GradSampleModuleFastGradientClipping
-            self.model = GradSampleModuleFastGradientClipping(base, loss_reduction="sum", max_grad_norm=clip, use_ghost_clipping=True)
-        if not accum_allowed:
-            self.model.forbid_grad_accumulation()
         self.w = base.fc.weight
         self.inner = torch.optim.SGD([self.w], lr=1.0)
-        cls = DPOptimizer if kind == "std" else DPOptimizerFastGradientClipping
-        self.opt = cls(self.inner, noise_multiplier=sigma, max_grad_norm=clip, expected_batch_size=None, loss_reduction="sum")
         if acct == "auto":
             acct = "gdp" if gdp else "rdp"
-        self.acct = {"gdp": GaussianAccountant, "rdp": RDPAccountant, "prv": PRVAccountant}[acct]()
-        self.opt.attach_step_hook(self.acct.get_optimizer_hook_fn(sample_rate=Q))
-        if kind == "ghost":
-            from opacus.utils.fast_gradient_clipping_utils import DPLossFastGradientClipping
-            self.crit = DPLossFastGradientClipping(self.model, self.opt, OutCriterion("sum"), loss_reduction="sum")
+        if via_engine:
+            # the real wiring: PrivacyEngine.make_private attaches the accountant hook with
+            # sample_rate = 1 / len(data_loader) (= Q) and forbids accumulation under Poisson sampling
+            from opacus import PrivacyEngine
+            self.pe = PrivacyEngine(accountant=acct)
+            ds = torch.utils.data.TensorDataset(torch.zeros(1000, self.d), torch.zeros(1000))
+            dl = torch.utils.data.DataLoader(ds, batch_size=1)
+            kw = dict(module=base, optimizer=self.inner, data_loader=dl, noise_multiplier=sigma, max_grad_norm=clip,
+                      loss_reduction="sum", poisson_sampling=not accum_allowed)
+            if kind == "std":
+                self.model, self.opt, _ = self.pe.make_private(**kw)
+            else:
+                self.model, self.opt, self.crit, _ = self.pe.make_private(grad_sample_mode="ghost", criterion=OutCriterion("sum"), **kw)
+            self.acct = self.pe.accountant
+        else:
+            if kind == "std":
+                from opacus import GradSampleModule
+                self.model = GradSampleModule(base, loss_reduction="sum")
+            else:
+                from opacus.grad_sample.grad_sample_module_fast_gradient_clipping import GradSampleModuleFastGradientClipping
+                self.model = GradSampleModuleFastGradientClipping(base, loss_reduction="sum", max_grad_norm=clip, use_ghost_clipping=True)
+            if not accum_allowed:
+                self.model.forbid_grad_accumulation()
+            cls = DPOptimizer if kind == "std" else DPOptimizerFastGradientClipping
+            self.opt = cls(self.inner, noise_multiplier=sigma, max_grad_norm=clip, expected_batch_size=None, loss_reduction="sum")
+            self.acct = {"gdp": GaussianAccountant, "rdp": RDPAccountant, "prv": PRVAccountant}[acct]()
+            self.opt.attach_step_hook(self.acct.get_optimizer_hook_fn(sample_rate=Q))
+            if kind == "ghost":
+                from opacus.utils.fast_gradient_clipping_utils import DPLossFastGradientClipping
+                self.crit = DPLossFastGradientClipping(self.model, self.opt, OutCriterion("sum"), loss_reduction="sum")
         # observers
         real_acct_step = self.acct.step
 
@@ -119,8 +134,8 @@ class RealEngine:
             with rig.patched_normal(self.noise_mode) as log:
                 log.calls_hook = None
                 name = op[0]
-                if name == "fwdbwd":
-                    x = self._batch(op[1])
+                if name in ("fwdbwd", "fwdbwd_t"):
+                    x = self._batch(op[1]) if name == "fwdbwd" else op[1]
                     if self.kind == "std":
                         self.model(x).sum().backward()
                     else:
@@ -234,3 +249,65 @@ def run_real(cfg, ops, **kw):
     for op in ops:
         lines.append(eng.do(op))
     return lines
+
+
+# --------------------------------------------------------------------------- BatchMemoryManager
+class _FixedBatches(torch.utils.data.Sampler):
+    def __init__(self, batches):
+        self.batches = batches
+
+    def __iter__(self):
+        return iter([list(b) for b in self.batches])
+
+    def __len__(self):
+        return len(self.batches)
+
+
+class _OneHot(torch.utils.data.Dataset):
+    def __init__(self, n, d):
+        self.n, self.d = n, d
+
+    def __len__(self):
+        return self.n
+
+    def __getitem__(self, i):
+        x = torch.zeros(self.d, dtype=torch.float64)
+        x[i] = 1.0
+        return x, torch.tensor(i)
+
+
+def run_real_bmm(cfg, sizes, max_physical, acct="rdp", use_bmm=True):
+    """Train on logical batches of the given sizes (token ids consecutive) through the real
+    BatchMemoryManager / BatchSplittingSampler + DataLoader; returns the canonical lines after
+    (fetch = the sampler's signal), forward/backward, step, zero_grad of every physical batch, and the
+    physical batch sizes seen."""
+    from opacus.data_loader import wrap_collate_with_empty
+    from opacus.utils.batch_memory_manager import BatchMemoryManager
+    from torch.utils.data._utils.collate import default_collate
+
+    kind, acc, gdp, sigma, clip = cfg
+    n_tokens = sum(sizes)
+    eng = RealEngine(kind, acc, gdp, sigma, clip, n_tokens, acct=acct, via_engine=True)
+    batches, start = [], 0
+    for n in sizes:
+        batches.append(list(range(start, start + n)))
+        start += n
+    ds = _OneHot(max(n_tokens, 1), eng.d)
+    collate = wrap_collate_with_empty(collate_fn=default_collate, sample_empty_shapes=[(0, eng.d), (0,)], dtypes=[torch.float64, torch.int64])
+    dl = torch.utils.data.DataLoader(ds, batch_sampler=_FixedBatches(batches), collate_fn=collate)
+    lines, phys = [eng.render("ok", [])], []
+
+    def loop(loader):
+        for x, idx in loader:
+            phys.append(idx.tolist())
+            lines.append(eng.render("ok", []))                      # ↔ model op `sig b`
+            lines.append(eng.do(("fwdbwd_t", x)))
+            lines.append(eng.do(("step",)))
+            lines.append(eng.do(("ozg",)))
+
+    if use_bmm:
+        with BatchMemoryManager(data_loader=dl, max_physical_batch_size=max_physical, optimizer=eng.opt) as loader:
+            loop(loader)
+    else:
+        loop(dl)
+    return lines, phys
